@@ -164,3 +164,16 @@ Theorem C11_descr_const_fields : forall addr n rt,
   d_offset (descr_const addr n) = 0 /\ d_sizes (descr_const addr n) = seq 0 n.
 Proof. exact descr_const_fields. Qed.
 Print Assumptions C11_descr_const_fields.
+
+(* static mode over several memory spaces (the dict current_addresses): the buffers of every memory space m
+   are placed as by the single-memory allocator, hence aligned, inside that space's window, pairwise disjoint *)
+Theorem C11_static_multi_disjoint : forall mems rs l m,
+  Forall (fun r => (fst r < length mems)%nat) rs -> Forall req_ok (reqs_of m rs) ->
+  static_multi mems rs = AOk l ->
+  let start := fst (nth m mems (0, 0)) in let cap := snd (nth m mems (0, 0)) in
+  length (addrs_of m rs l) = length (reqs_of m rs) /\
+  forall i ai ri, nth_error (addrs_of m rs l) i = Some ai -> nth_error (reqs_of m rs) i = Some ri ->
+    start <= ai /\ ai + rsize ri <= start + cap /\ ai mod ralign ri = 0 /\
+    forall j aj, (i < j)%nat -> nth_error (addrs_of m rs l) j = Some aj -> ai + rsize ri <= aj.
+Proof. exact static_multi_disjoint. Qed.
+Print Assumptions C11_static_multi_disjoint.
